@@ -2,6 +2,7 @@ package mon
 
 import (
 	"fmt"
+	"regexp"
 	"strconv"
 
 	at "github.com/DanielSvub/anytype"
@@ -353,7 +354,19 @@ func runC11(c *fw.Ctx) {
 					// UnsetTF: a resolvable path, a corruption of one, or a path that does not fit
 					paths, _ := model.AllPaths(root, 200)
 					var path string
+					var rowWise []string
+					for _, q := range paths {
+						// a path with an index segment dropped ("the field of every row"): it does not resolve
+						for _, m := range indexSegRe.FindAllStringIndex(q, -1) {
+							if m[1] < len(q) {
+								rowWise = append(rowWise, q[:m[0]]+q[m[1]:])
+							}
+						}
+					}
 					switch {
+					case len(rowWise) > 0 && r.Chance(1, 4):
+						path = rowWise[r.Intn(len(rowWise))]
+						c.Count("unsettf_paths_with_an_index_segment_dropped")
 					case len(paths) > 0 && r.Chance(2, 3):
 						path = paths[r.Intn(len(paths))]
 					case len(paths) > 0:
@@ -673,3 +686,5 @@ func selfC11(s *fw.SelfCheck) {
 	o := h.FromSpec(spec.ObjV("n", spec.NilV()))
 	s.Expect(h.UnsetTF(o, ".n") && len(o.M) == 0, "model UnsetTF does not remove a nil-valued field")
 }
+
+var indexSegRe = regexp.MustCompile(`#[0-9]+`)
